@@ -440,7 +440,13 @@ def check_model(case, rec, tol=1e-6):
         # Gauss-Newton on a (numerically) rank-deficient system is ill-posed: the default pseudo-inverse keeps singular values of
         # round-off size and the step explodes (later NaN losses are a consequence, not a separate defect).  LM is regularised.
         sv0 = np.linalg.svd(Wfull @ Jc, compute_uv=False)
-        if sv0.size and sv0[0] > 0 and sv0[-1] < 1e-7 * sv0[0]:
+        # ... relative to the largest singular value AND absolutely: for a residual that is mathematically constant (X @ Inv(X),
+        # Inv(Retr(Inv(Exp a), a)) ...) the true J is 0, pypose's autograd J is 1e-16 noise and this finite-difference J is 1e-13
+        # noise - both look full rank with a harmless condition number and their pseudo-inverses have nothing in common (found by an
+        # independent false-alarm audit).  Singular values below the noise floor of the reference are zeros.
+        rmax = float(np.abs(r0).max()) if r0.size else 0.0
+        floor = 1e-8 * (1.0 + rmax)
+        if sv0.size and (sv0[0] < 10 * floor or sv0[-1] < max(1e-7 * sv0[0], floor)):
             rec.discard_case("gn_rank_deficient_system")
     # ---- run the optimizer ------------------------------------------------------------------
     model = Model(case)
@@ -491,6 +497,9 @@ def check_model(case, rec, tol=1e-6):
         # the applied step
         if case["solver"] == "PINV" and rank_gap_ok and cond < 1e6 and not huge:
             d_ref = np.linalg.pinv(A_ref, rcond=1e-12) @ b_ref
+            if not np.all(np.isfinite(d_ref)) or (d_ref.size and float(np.abs(d_ref).max()) > STEP_LIMIT):
+                rec.label("huge_step:reference")        # same domain limit as step_outside_domain(): Exp of it would overflow
+                return
             want = retract(case, base, d_ref)
             e = param_distance(case, want, after)
             t_ = tol * cond * max(1.0, float(np.abs(d_ref).max()))
@@ -558,7 +567,9 @@ def check_model(case, rec, tol=1e-6):
         if case["solver"] in ("Cholesky", "PINV", "LSTSQ"):
             condA = float(np.linalg.cond(A))
             res = float(np.abs(A @ x - b).max()) / max(1e-300, float(np.abs(A).max()) * float(np.abs(x).max()) + float(np.abs(b).max()))
-            rec.check(res <= 1e-8 * max(1.0, condA * 1e-8) or condA > 1e12, "lm_solve", lambda: "LM: solver answer has relative residual %.3g" % res)
+            # (this is torch's solver accuracy seen through pypose's wrapper, not a pypose claim: an explicit pinv(A) @ b leaves a
+            # residual of ~2 eps cond(A), hence the generous constant above cond 1e7)
+            rec.check(res <= 1e-8 * max(1.0, condA * 1e-7) or condA > 1e12, "lm_solve", lambda: "LM: solver answer has relative residual %.3g" % res)
         nt = nt or active_clamp
         if active_clamp:
             rec.label("active_clamp")
